@@ -368,6 +368,26 @@ def r6(cx):
         local = sorted(c for c in calls if c in cx.prog.calls or c.startswith(("query::", "<query::")))
         cutting = sorted(c for c in calls if re.search(r"Bytes::(slice|split_to|split_off|truncate|slice_ref)$|stream::iter$|Iterator::map$", c))
         once = any(c.endswith("stream::once") or c.endswith("stream::once::once") for c in calls)
+        # the async block that yields the item: it must hand on the captured bytes as they are
+        blocks_defs = []
+        for x in o:
+            if x[0] == "call" and x[1][1].endswith("stream::once"):
+                a0 = b.term(x[1][0])["args"][0]
+                if a0.get("k") in ("move", "copy"):
+                    for (dbi, dsi, dk, pay) in b.defs().get(a0["pl"]["l"], []):
+                        if dk == "assign" and pay["rv"].get("k") == "agg" and pay["rv"].get("def"):
+                            blocks_defs.append(pay["rv"]["def"])
+        for dname in blocks_defs:
+            if True:
+                for k2 in cx.prog.sub_bodies(dname):
+                    sb = cx.body(k2)
+                    if sb is None:
+                        continue
+                    for _, tt in sb.calls():
+                        if re.search(r"Bytes::(slice|split_to|split_off|truncate|slice_ref)$", tt["callee"]):
+                            cutting.append(tt["callee"])
+                        elif tt["callee"] in cx.prog.calls and "::{closure" not in tt["callee"]:
+                            local.append(tt["callee"])
         if once and not local and not cutting:
             cx.passed(CS + "get", "payload-is-the-whole-cached-buffer", [b.sp(bi, si)])
         else:
